@@ -266,6 +266,7 @@ fn c08_profiles() -> Vec<(&'static str, Profile, u32, u32)> {
     p.o_insert = 8;
     p.o_token = 12;
     p.o_idle = 4;
+    p.o_async = 3;
     p.k_probe = 2;
     p.probe_lifecycle_pct = 50;
     p.post_pct = 20;
@@ -428,6 +429,8 @@ fn c15_profiles() -> Vec<(&'static str, Profile, u32, u32)> {
     p.k_probe = 8;
     p.probe_lifecycle_pct = 60;
     p.o_fail = 10;
+    p.o_async = 4;
+    p.o_badfd = 3;
     p.err_pct = 12;
     p.o_token = 8;
     p.o_cause = 14;
@@ -446,6 +449,9 @@ pub static C15: HistProp = HistProp {
         }
         if f.err_with_pending_batch > 0 {
             c.push("err_with_other_events_owed");
+        }
+        if f.failed_adapts > 0 {
+            c.push("failed_adapt_io");
         }
     },
     epoll_each_step: true,
@@ -468,6 +474,7 @@ fn c16_profiles() -> Vec<(&'static str, Profile, u32, u32)> {
     p.k_probe = 1;
     p.probe_lifecycle_pct = 0;
     p.o_recycle = 5;
+    p.o_async = 7;
     p.o_token = 12;
     p.o_insert = 8;
     p.post_pct = 25;
@@ -479,13 +486,19 @@ pub static C16: HistProp = HistProp {
     id: "C16",
     meta: &C16_META,
     profiles: c16_profiles,
-    nontrivial: |f| f.recycles > 0 || f.interest_changes > 0,
+    nontrivial: |f| f.recycles > 0 || f.interest_changes > 0 || f.readapts > 0,
     classes: |f, c| {
         if f.recycles > 0 {
             c.push("fd_released_and_reinserted");
         }
         if f.interest_changes > 0 {
             c.push("interest_or_mode_changed");
+        }
+        if f.adapts > 0 {
+            c.push("async_adapter");
+        }
+        if f.readapts > 0 {
+            c.push("fd_re_adapted_after_release");
         }
     },
     epoll_each_step: true,
